@@ -189,6 +189,26 @@ Theorem gcxs_axes_distinct_refuted :
 Proof. exact gcxs_axes_distinct_refuted_proof. Qed.
 Print Assumptions gcxs_axes_distinct_refuted.
 
+(* dtype promotion of mean / var (decision GENERATED from SparseArray.mean / SparseArray.var; dtype codes:
+   0 bool, 1..4 int8..int64, 5..8 uint8..uint64, 9 float16, 10 float32, 11 float64, 12/13 complex):
+   integer and bool inputs are accumulated and returned in float64, float16 is accumulated in float32,
+   the other floating dtypes are kept, an explicit dtype= is used for both.  Values and result dtypes of
+   mean/var/std for every data dtype are compared with NumPy by the campaign (differential). *)
+Theorem mean_dtype_promotion :
+  (forall k, In k int_or_bool_dtypes -> mean_dtypes k None = Ok (11, 11)) /\
+  mean_dtypes 9 None = Ok (9, 10) /\
+  (forall k, In k [10; 11; 12; 13] -> mean_dtypes k None = Ok (k, k)) /\
+  (forall k d, In k [0; 1; 2; 3; 4; 5; 6; 7; 8; 9; 10; 11; 12; 13] -> mean_dtypes k (Some d) = Ok (d, d)).
+Proof. exact mean_dtype_promotion_proof. Qed.
+Print Assumptions mean_dtype_promotion.
+
+Theorem var_dtype_promotion :
+  (forall k, In k int_or_bool_dtypes -> var_dtype k None = Ok (Some 11)) /\
+  (forall k, In k [9; 10; 11; 12; 13] -> var_dtype k None = Ok None) /\
+  (forall k d, In k [0; 1; 2; 3; 4; 5; 6; 7; 8; 9; 10; 11; 12; 13] -> var_dtype k (Some d) = Ok (Some d)).
+Proof. exact var_dtype_promotion_proof. Qed.
+Print Assumptions var_dtype_promotion.
+
 (* ------------------------------------------------------------------ examples: the hypotheses are satisfiable *)
 Example ex_input_canonical : canonical Z ex_x /\ shape_ok (c_shape ex_x).
 Proof. exact ex_x_canonical. Qed.
